@@ -415,12 +415,15 @@ class AsyncSimStream(AsyncNetworkStream):
                 return httpcore.ReadTimeout("no data within the read timeout")
 
             await rt.wait(self._sock.readable, deadline=deadline, timeout_exc=to, what="read")
+        else:
+            await rt.cancel_shielded_checkpoint()  # completion -> wake-up gap
         self._net._last_read = e
         return self._net.read_now(self._sock, max_bytes)
 
     async def write(self, buffer: bytes, timeout: typing.Any = None) -> None:
         await vrt.RT.checkpoint()
         self._net.do_write(self._sock, self._depth, buffer, timeout)
+        await vrt.RT.cancel_shielded_checkpoint()
 
     async def aclose(self) -> None:
         # closing is done first: real backends close the transport even if
@@ -434,6 +437,7 @@ class AsyncSimStream(AsyncNetworkStream):
         # open (the real anyio/trio backends only close it on `Exception`)
         await vrt.RT.checkpoint()
         self._net.do_start_tls(self._sock, self._depth, ssl_context, server_hostname, timeout)
+        await vrt.RT.cancel_shielded_checkpoint()
         return AsyncSimStream(self._net, self._sock, self._depth + 1)
 
     def get_extra_info(self, info: str) -> typing.Any:
@@ -451,12 +455,16 @@ class AsyncSimBackend(AsyncNetworkBackend):
                           local_address: typing.Any = None, socket_options: typing.Any = None) -> AsyncNetworkStream:
         await vrt.RT.checkpoint()
         sock = self.net.do_connect(host, port, None, timeout, local_address, socket_options)
+        # the operation has completed; a cancellation requested between the
+        # completion and the task's wake-up is seen at the next checkpoint
+        await vrt.RT.cancel_shielded_checkpoint()
         return AsyncSimStream(self.net, sock)
 
     async def connect_unix_socket(self, path: str, timeout: typing.Any = None,
                                   socket_options: typing.Any = None) -> AsyncNetworkStream:
         await vrt.RT.checkpoint()
         sock = self.net.do_connect(None, None, path, timeout, None, socket_options)
+        await vrt.RT.cancel_shielded_checkpoint()
         return AsyncSimStream(self.net, sock)
 
     async def sleep(self, seconds: typing.Any) -> None:
